@@ -47,7 +47,7 @@ STR_POOL = ["a", "b", "c", "cat", "dog", "A", "Z", "x1", "x10", "x2", "zebra", "
 
 
 def n_cases(tier):
-    return 320 if tier == "quick" else 5000
+    return 2000 if tier == "quick" else 16000
 
 
 # --------------------------------------------------------------------------------------
@@ -90,8 +90,13 @@ def gen_one(rng, i, tier):
         b = a if rng.random() < 0.55 else rng.choice(used)
         labels.append(a)
         preds.append(b)
-    wkind = rng.choice(["none", "none", "int", "dyadic", "float"])
-    if wkind == "int":
+    wkind = rng.choice(["none", "none", "int", "dyadic", "float", "int"])
+    if wkind == "int" and rng.random() < 0.35:
+        # exact integer weights beyond 2**53 (frequency counts of aggregated logs): a total routed through float64
+        # is off by the last digits
+        base_ = rng.choice([2 ** 53, 2 ** 53 - 3, 3 * 10 ** 15, 2 ** 57 + 1])
+        weights = [base_ + rng.randint(0, 1000) if rng.random() < 0.6 else rng.randint(1, 5) for _ in range(ns)]
+    elif wkind == "int":
         weights = [rng.randint(1, 5) for _ in range(ns)]
     elif wkind == "dyadic":
         weights = [rng.randint(1, 40) / 8.0 for _ in range(ns)]
@@ -503,6 +508,72 @@ def _blocks(res, names, j):
     return out
 
 
+def _history_checks(ctx, inp, cm, shape, N, tag):
+    """One object over time.  (a) an array returned by a per-class query is the caller's to modify: later answers of the
+    object must not change with it.  (b) `matrix` is a public attribute and accumulating another batch in place
+    (`cm.matrix += batch`) is ordinary use: afterwards one_vs_all() and the per-class metrics must describe the matrix the
+    object holds NOW, i.e. equal those of a fresh object built from a copy of it.  Run on a private copy of the object."""
+    from score_analysis import ConfusionMatrix
+    try:
+        base = np.array(cm.matrix, copy=True)
+        own = ConfusionMatrix(matrix=np.array(base, copy=True), classes=list(cm.classes))
+    except Exception:
+        return
+    names = ["tp", "fn", "fp", "tn", "tpr", "ppv"]
+
+    def snap(obj):
+        out = {}
+        r_ = common.call(obj.one_vs_all)
+        out["one_vs_all"] = np.array(r_[1].matrix, copy=True) if r_[0] == "ok" else ("exc", r_[1])
+        for nm in names:
+            r_ = common.call(getattr(obj, nm))
+            out[nm] = np.array(r_[1], copy=True) if r_[0] == "ok" else ("exc", r_[1])
+        return out
+
+    def differs(a, b):
+        for k_ in a:
+            x, y = a[k_], b[k_]
+            if isinstance(x, tuple) or isinstance(y, tuple):
+                if x != y:
+                    return k_
+            elif x.shape != y.shape or not np.array_equal(x, y, equal_nan=True):
+                return k_
+        return None
+
+    first = snap(own)
+    ctx.evals += 2
+    # (a) modify kept results in place
+    for nm in ("tp", "fn"):
+        r_ = common.call(getattr(own, nm))
+        if r_[0] == "ok" and isinstance(r_[1], np.ndarray) and r_[1].flags.writeable and r_[1].size:
+            try:
+                r_[1][...] = 0
+            except Exception:
+                pass
+    again = snap(own)
+    k_ = differs(first, again)
+    if k_ is not None:
+        ctx.fail("history", f"after zeroing the arrays returned by tp() / fn() in place, {k_}() of the same object changed "
+                 f"(matrix {base.reshape(-1).tolist()[:16]})", f"cm/{tag}/history/kept-result")
+        return
+    # (b) accumulate another batch in place
+    seed_ = int(inp.get("seed", 0)) % (2 ** 31)
+    prng = np.random.RandomState(seed_)
+    if base.size == 0 or not (np.issubdtype(base.dtype, np.integer) or np.issubdtype(base.dtype, np.floating)):
+        return
+    batch = prng.randint(0, 4, size=base.shape).astype(base.dtype)
+    try:
+        own.matrix += batch
+    except Exception:
+        return
+    fresh = ConfusionMatrix(matrix=np.array(own.matrix, copy=True), classes=list(cm.classes))
+    k_ = differs(snap(own), snap(fresh))
+    if k_ is not None:
+        ctx.fail("history", f"after `cm.matrix += batch` ({batch.reshape(-1).tolist()[:16]}) on an object that had already been "
+                 f"queried, {k_}() differs from that of a fresh object holding the same matrix "
+                 f"{np.asarray(own.matrix).reshape(-1).tolist()[:16]}", f"cm/{tag}/history/in-place-update")
+
+
 def _stack_checks(ctx, inp, cm, arr, shape, N, K, scls, pos, eps, skind, metrics, tag):
     got = _collect(ctx, cm, shape, N, tag, metrics, True)
     racc = common.call(cm.accuracy)
@@ -524,6 +595,7 @@ def _stack_checks(ctx, inp, cm, arr, shape, N, K, scls, pos, eps, skind, metrics
         ctx.fail("pop", "pop() differs from the sum of the matrix", f"cm/{tag}/pop")
     if got is None:
         return got
+    _history_checks(ctx, inp, cm, shape, N, tag)
     om, res, dres = got
     flat = arr.reshape(-1, N, N)
     oflat = om.reshape(-1, N, 2, 2)
